@@ -497,6 +497,11 @@ def main(pid, tier, repo=None):
         rule_handle(ctx)
         rule_noleak(ctx)
         rule_oom(ctx)
+        from . import unsafe_rules
+        unsafe_rules.rule_type_census(ctx, "handle")
+    if tier == "thorough":
+        from .. import witness
+        witness.rule(ctx, ["AllocHandleIsNotClone", "AllocHandleFieldsArePrivate"])
     ctx.not_decided("leak-freedom through Arc cycles among FrameRenderHandle.refs (argued acyclic: references point to lower frame indices)")
     ctx.not_decided("untracked allocations (frame buffers, Brotli)")
     return ctx.finish(
